@@ -67,7 +67,7 @@ STRENGTHENED = {
     "C01-agent6": "first contact: exit 2 in 5 checks (present_fields() generator, tables keyed by the layout class). N25 fuses a consumer loop into a generator helper, the specialiser reads type-keyed tables, assertions are traced: C01-F reports the encryption cross-check that is evaluated in variants without a session area (the known finding K2 on the same assert would otherwise have hidden it)",
     "C02-agent6": "first contact: C02 silent (C04 / C16 reported the member value). C02 gained B7 = the NamedRange rule: by_number(n) is the member with value n",
     "C03-agent6": "caught from the start (R5: the list no longer charges its members in order); the repaired commit needed the ledger's guarded-at-callers discharge (`is_obsolete` tested by the caller instead of caught)",
-    "C04-agent6": "exit 2 in 18 checks: the algorithm types became an IntFlag combined with reduce(or_, ...) and read through a property - the spec model's built-in model of AlgValue / by_type_* no longer applies (section 7)",
+    "C04-agent6": "first contact: exit 2 in 18 checks (the algorithm types became an IntFlag combined with reduce(or_, ...) and read through a property). The spec model learned IntFlag classes, functools.reduce over operator functions, and derives its model of AlgValue from the class's own __init__ and properties; the snapshot (V5) then reports the interface types that accept too many algorithms",
     "C05-agent6": "caught from the start (E3: the boundary test); the repaired commit recognises a message root by `event.type in {Command, Response}`, which E3 now accepts for exactly that set",
     "C06-agent6": "first contact: reported with false-alarm companions (a mutable set of absent field names). The specialiser tracks constant sets, N24 / N26 expand table subscripts and `.get` into case distinctions; C06-X1 reports the KeyError for a tag outside the table",
     "C07-agent6": "first contact: reported with false-alarm companions on the overrun_warning(*own_constraints) helper; helpers with *args are inlined now, NI-3 / Y2 report the warning that is built but not yielded",
@@ -79,7 +79,7 @@ STRENGTHENED = {
     "C13-agent6": "caught from the start (A1: the consumed byte instead of the look-ahead byte); the repaired commit's `sent = lookahead` copy needed alias resolution in the pump analysis",
     "C14-agent6": "first contact: reported only through false alarms. C14 gained Q8: the byte buffer's translation table, folded by the mini interpreter, maps every byte to printable ASCII (control characters would break the row)",
     "C15-agent6": "first contact: reported with false-alarm companions (dispatch table, chain(), slice constants). N23 / N24 and slice constants in the normaliser; F5 reports the `<=` runt test",
-    "C16-agent6": "exit 2 in 6 checks: tpm_enum's internals were rearranged (shared metaclass, _find(), one text function attached under three names) - the model guards G4 / O4 are stated over the original arrangement (section 7)",
+    "C16-agent6": "first contact: exit 2 in 6 checks (tpm_enum's internals rearranged: a shared metaclass, a _find() search that by_value and the constructor share, one text function attached under three names). Model guard G4 accepts the wrapped search, O4 resolves what is installed as __format__ / __str__ / __repr__ and reports the closure's class name in the text form",
     "C17-agent6": "first contact: exit 2 (string slicing of the bit text). The mini interpreter concatenates / slices / repeats symbolic text; M2 reports the empty row of the field at bit 0",
     "C18-agent6": "first contact: exit 2 (`_field(mask)` helper, division by the lowest set bit). The classification walker evaluates helper functions and methods symbolically and treats division by a power of two as a shift; N1 reports the 256 codes named from six bits",
     "C19-agent6": "first contact: C19 silent. C19 gained L8: cc_name folded over all 117 command codes must give the member's name (lstrip strips a character set)",
